@@ -156,7 +156,7 @@ func arrayHasSuffix(suffix rel.Value, subject rel.Array) (rel.Value, error) {
 		return rel.NewBool(false), nil
 	}
 	for i, val := range suffixVals {
-		if !subjectVals[offset+i].Equal(val) {
+		if !itemsEqual(subjectVals[offset+i], val) {
 			return rel.NewBool(false), nil
 		}
 	}
@@ -196,6 +196,14 @@ func arrayTrimSuffix(suffix rel.Value, subject rel.Array) (rel.Value, error) {
 	return subject, nil
 }
 
+// itemsEqual compares two array items; a hole (nil) only equals another hole.
+func itemsEqual(a, b rel.Value) bool {
+	if a == nil || b == nil {
+		return a == nil && b == nil
+	}
+	return a.Equal(b)
+}
+
 // Searches array sub in subject and return the first indedx if found, or return -1.
 // It is brute force approach, can be improved later if it is necessary.
 // Case: subject=[1,2,3,4], sub=[2], return 1
@@ -205,7 +213,7 @@ func search(subject, sub []rel.Value) int {
 	for start := 0; start+len(sub) <= len(subject); start++ {
 		matched := true
 		for i, v := range sub {
-			if !subject[start+i].Equal(v) {
+			if !itemsEqual(subject[start+i], v) {
 				matched = false
 				break
 			}
